@@ -24,10 +24,12 @@ def configs(tier):
     belt = ["rp0", "rg0", "put", "getO", "cpO", "cgN", "ev", "advN"]
     for hdr in ("new slot 2 1 1", "new slot 2 1 0", "new slot 1 2 1"):
         out.append(("slot", hdr, d + 2, belt))
+    out.append(("slot", "new slot 1 1 1", d, belt + ["rp1"]))      # rp1: a second actor asking with priority -1
     for hdr in ("new cbelt 2 1 0", "new cbelt 2 1 1", "new cbelt 3 2 0"):
         out.append(("cbelt", hdr, d + 2, belt))
     for hdr in ("new fleet 2 2 1", "new fleet 1 1 0"):
         out.append(("fleet", hdr, d + 1, belt))
+    out.append(("fleet", "new fleet 1 2 0", d - 1, belt + ["rp1"]))
     return out
 
 class Tk:
